@@ -314,7 +314,7 @@ def gen_cases_stage(work, v, findings, prop, harness, acc, module, family, fn, c
     """spec -> code for a pure function: TLC enumerates a finite family of
     inputs, checks the laws of the specification operator on each and emits
     (input, expected); the harness evaluates the real function on each."""
-    name = "%s_%s" % (module, family)
+    name = "%s_%s" % (module, family) + ("" if tuple(invariants) == ("Laws", "Emit") else "_" + fn)
     outp = work.path("cases_%s.ndjson" % name)
     lines = ["SPECIFICATION Spec", "CONSTANTS", '  FAMILY = "%s"' % family, '  OUT = "%s"' % outp]
     for k, val in (consts or {}).items():
@@ -821,6 +821,7 @@ def c12(work, v, tier):
               ("cond-alias", dict(machine="cond", KwArgs=["k"], OpArgs=["Eq"], ExArgs=["nil", "s:v", "S", "A", "P", "C"], CFams=["set", "opts"],
                                   COptFlags=["nnest"], depth=3, walks=200 if q else 10000))]
     gens = [dict(module="Gen_Render", family="alias", fn="render"),
+            dict(module="Gen_Render", family="alias", fn="measure", invariants=("Laws", "EmitM")),
             dict(module="Gen_Equal", family="nested", fn="equal"),
             dict(module="Gen_Codec", family="c04fold", fn="codec"),
             dict(module="Gen_Traverse", family="d2", fn="traverse", consts=dict(Width=2, MaxPath=3 if q else 4), timeout=3000),
@@ -837,6 +838,7 @@ def c12(work, v, tier):
                     "classes S / A / P; ConvertStack / ConvertCondition over 17 value classes (zero aliases, nil pointers, unrelated types)",
                     gens=gens,
                     rands=[dict(module="Check_Render", fn="render", n=2000 if q else 20000, depth=3, salt=12),
+                           dict(module="Check_Measure", fn="measure", n=2000 if q else 50000, depth=3, salt=12),
                            dict(module="Check_Equal", fn="equal", n=2000 if q else 20000, depth=2, salt=12)])
 
 
@@ -1084,7 +1086,7 @@ def c11(work, v, tier):
         if r["consumed"] != g["lines"]:
             raise Infra("Check_Queries consumed %s of %s lines" % (r["consumed"], g["lines"]))
         reports = parse_race_log(open(logf).read())
-        acc["states"] += res["distinct"]; acc["traces"] += g["lines"]; acc["evaluations"] += g["lines"] * 26; acc["trace_events"] += g["lines"]
+        acc["states"] += res["distinct"]; acc["traces"] += g["lines"]; acc["evaluations"] += g["lines"] * 34; acc["trace_events"] += g["lines"]
         acc["tv"].append(dict(name="parallel-queries-" + name, structures=g["rounds"], goroutines=g["goroutines"], answer_lists_validated=g["lines"],
                               rejected_lines=len(r["bad"]), race_reports=len(reports)))
         viol = []
